@@ -10,10 +10,12 @@ import (
 	"fmt"
 	"math/rand/v2"
 	"os"
+	"os/exec"
 	"path/filepath"
 	"sort"
 	"strings"
 	"sync"
+	"syscall"
 	"time"
 )
 
@@ -23,6 +25,8 @@ type CaseSpec struct {
 	Name string
 	N    int
 	Run  func(keep []int) (*Trace, error)
+	// Inputs renders the inputs without executing anything (used when execution kills the process).
+	Inputs func() []string
 }
 
 // Mode generates cases.
@@ -252,12 +256,24 @@ func ddmin(keep []int, pred func([]int) bool, budget int) []int {
 	return keep
 }
 
+var progressFile *os.File
+var progressMu sync.Mutex
+
+func progress(format string, a ...any) {
+	if progressFile == nil {
+		return
+	}
+	progressMu.Lock()
+	fmt.Fprintf(progressFile, format+"\n", a...)
+	progressMu.Unlock()
+}
+
 func runProp(prop, tier string, seed uint64, outPath, replayDir, knownPath string, only int, keepOverride []int) int {
 	start := time.Now()
 	ps := props[prop]
 	if ps == nil {
 		fmt.Fprintf(os.Stderr, "unknown property %s\n", prop)
-		return 2
+		return 3
 	}
 	mode := modes[ps.Mode]
 	sum := &Summary{Property: prop, Mode: ps.Mode, Tier: tier, Seed: seed, Cov: map[string]int{}}
@@ -283,13 +299,13 @@ func runProp(prop, tier string, seed uint64, outPath, replayDir, knownPath strin
 			jobs = append(jobs, job{i, c})
 		}
 	} else {
-		var c *CaseSpec
+		c := caseFor(mode, seed, only, tier)
+		if c == nil {
+			return 3
+		}
 		if only >= 1<<20 {
-			cs := mode.Corpus()
-			c = cs[only-(1<<20)]
 			jobs = append(jobs, job{-1 - (only - (1 << 20)), c})
 		} else {
-			c = mode.Gen(seed, only, tier)
 			jobs = append(jobs, job{only, c})
 		}
 	}
@@ -302,6 +318,7 @@ func runProp(prop, tier string, seed uint64, outPath, replayDir, knownPath strin
 	var wg sync.WaitGroup
 	ch := make(chan job)
 	distinct := map[string]bool{}
+	shrunk := map[string]int{}
 	exit := 0
 	for w := 0; w < workers; w++ {
 		wg.Add(1)
@@ -318,6 +335,9 @@ func runProp(prop, tier string, seed uint64, outPath, replayDir, knownPath strin
 			}
 			defer drv.Close()
 			for j := range ch {
+				progress("start %d", j.idx)
+				func() {
+				defer progress("done %d", j.idx)
 				keep := allKeep(j.spec.N)
 				if keepOverride != nil {
 					keep = keepOverride
@@ -327,7 +347,7 @@ func runProp(prop, tier string, seed uint64, outPath, replayDir, knownPath strin
 					mu.Lock()
 					sum.Broken = append(sum.Broken, fmt.Sprintf("case %s: %v", j.spec.Name, err))
 					mu.Unlock()
-					continue
+					return
 				}
 				v, err := drv.Check(t)
 				if err != nil {
@@ -335,7 +355,7 @@ func runProp(prop, tier string, seed uint64, outPath, replayDir, knownPath strin
 					sum.Broken = append(sum.Broken, fmt.Sprintf("case %s: %v", j.spec.Name, err))
 					mu.Unlock()
 					drv, _ = StartDriver()
-					continue
+					return
 				}
 				diffs, mons := relevant(ps, v)
 				mu.Lock()
@@ -359,7 +379,7 @@ func runProp(prop, tier string, seed uint64, outPath, replayDir, knownPath strin
 					mu.Unlock()
 				}
 				if len(diffs) == 0 && len(mons) == 0 {
-					continue
+					return
 				}
 				// shrink, preserving the first relevant complaint's identity
 				kind, lines := "diff", diffs
@@ -367,7 +387,11 @@ func runProp(prop, tier string, seed uint64, outPath, replayDir, knownPath strin
 					kind, lines = "monitor", mons
 				}
 				sig := signature(prop, lines)
-				if keepOverride == nil {
+				mu.Lock()
+				shrunk[sig]++
+				doShrink := shrunk[sig] <= 2
+				mu.Unlock()
+				if keepOverride == nil && doShrink {
 					pred := func(k []int) bool {
 						t2, err := j.spec.Run(k)
 						if err != nil {
@@ -405,6 +429,7 @@ func runProp(prop, tier string, seed uint64, outPath, replayDir, knownPath strin
 				mu.Lock()
 				sum.Findings = append(sum.Findings, fd)
 				mu.Unlock()
+				}()
 			}
 		}()
 	}
@@ -467,7 +492,7 @@ func runProp(prop, tier string, seed uint64, outPath, replayDir, knownPath strin
 		for _, b := range sum.Broken {
 			fmt.Printf("BROKEN property=%s %s\n", prop, b)
 		}
-		exit = 2
+		exit = 3 // not 2: a Go panic exits with 2
 	}
 	if outPath != "" {
 		b, _ := json.MarshalIndent(sum, "", " ")
@@ -475,6 +500,106 @@ func runProp(prop, tier string, seed uint64, outPath, replayDir, knownPath strin
 	}
 	fmt.Printf("harness property=%s mode=%s tier=%s seed=%d cases=%d steps=%d findings=%d wall=%.1fs\n", prop, ps.Mode, tier, seed, sum.Cases, sum.Steps, len(sum.Findings), sum.WallS)
 	return exit
+}
+
+func caseFor(mode *Mode, seed uint64, idx int, tier string) *CaseSpec {
+	if idx >= 1<<20 {
+		cs := mode.Corpus()
+		if idx-(1<<20) < len(cs) {
+			return cs[idx-(1<<20)]
+		}
+		return nil
+	}
+	return mode.Gen(seed, idx, tier)
+}
+
+// supervise runs the work in a child process, so that a panic inside the code under test
+// (which kills the process) is observed, attributed to a case and reported.
+func supervise(prop, tier string, seed uint64, outPath, replayDir, knownPath string) int {
+	self, _ := os.Executable()
+	prog, _ := os.CreateTemp("", "verif-progress-*")
+	prog.Close()
+	defer os.Remove(prog.Name())
+	args := []string{"work", "-prop", prop, "-tier", tier, "-seed", fmt.Sprint(seed), "-out", outPath, "-replays", replayDir, "-known", knownPath, "-progress", prog.Name()}
+	cmd := exec.Command(self, args...)
+	cmd.Stdout = os.Stdout
+	err := cmd.Run()
+	code := 0
+	if err != nil {
+		code = -1
+		if ee, ok := err.(*exec.ExitError); ok {
+			code = ee.ExitCode()
+		}
+	}
+	if code == 0 || code == 1 || code == 3 {
+		if _, e := os.Stat(outPath); e == nil || outPath == "" {
+			if code == 3 {
+				return 2
+			}
+			return code
+		}
+	}
+	// the worker died: find the cases that were in flight
+	started, done := map[int]bool{}, map[int]bool{}
+	b, _ := os.ReadFile(prog.Name())
+	for _, l := range strings.Split(string(b), "\n") {
+		var k string
+		var i int
+		if n, _ := fmt.Sscanf(l, "%s %d", &k, &i); n == 2 {
+			if k == "start" {
+				started[i] = true
+			} else {
+				done[i] = true
+			}
+		}
+	}
+	cands := []int{}
+	for i := range started {
+		if !done[i] {
+			cands = append(cands, i)
+		}
+	}
+	sort.Ints(cands)
+	os.MkdirAll(replayDir, 0o755)
+	found := ""
+	for _, i := range cands {
+		idx := i
+		if idx < 0 {
+			idx = (1 << 20) + (-1 - idx)
+		}
+		c := exec.Command(self, "work", "-prop", prop, "-tier", tier, "-seed", fmt.Sprint(seed), "-only", fmt.Sprint(idx), "-replays", os.TempDir(), "-known", knownPath)
+		e := c.Run()
+		cc := 0
+		if e != nil {
+			cc = -1
+			if ee, ok := e.(*exec.ExitError); ok {
+				cc = ee.ExitCode()
+			}
+		}
+		if cc != 0 && cc != 1 && cc != 3 {
+			found = filepath.Join(replayDir, fmt.Sprintf("%s-crash-%d-%d.trace", prop, seed, idx))
+			d, _ := exec.Command(self, "dump", "-prop", prop, "-tier", tier, "-seed", fmt.Sprint(seed), "-only", fmt.Sprint(idx)).Output()
+			os.WriteFile(found, append([]byte(fmt.Sprintf("# replay prop=%s mode=%s seed=%d case=%d tier=%s keep=\n# the process running the code under test died (exit %d) while executing this case alone\n", prop, props[prop].Mode, seed, idx, tier, cc)), d...), 0o644)
+			break
+		}
+	}
+	sum := &Summary{Property: prop, Mode: props[prop].Mode, Tier: tier, Seed: seed, Cov: map[string]int{}}
+	if found != "" {
+		fmt.Printf("VIOLATION property=%s replay=%s\n  the implementation crashed (the process died) on this case\n", prop, found)
+		sum.Findings = []*Finding{{Case: "crash", Kind: "monitor", Lines: []string{"process died"}, Replay: found, Signature: prop + "/crash"}}
+	} else {
+		found = filepath.Join(replayDir, fmt.Sprintf("%s-crash-%d.txt", prop, seed))
+		os.WriteFile(found, []byte(fmt.Sprintf("worker exited with %d; cases in flight: %v; none of them crashed when run alone\n", code, cands)), 0o644)
+		fmt.Printf("VIOLATION property=%s replay=%s no-failing-input-found\n  the process running the code under test died (exit %d) and no single case reproduces it\n", prop, found, code)
+		sum.Findings = []*Finding{{Case: "crash", Kind: "diff", Lines: []string{"process died"}, Replay: found, Signature: prop + "/crash"}}
+	}
+	sum.Cases, sum.Distinct = len(started), len(started)
+	sum.Samples = []string{"(worker died)"}
+	if outPath != "" {
+		bb, _ := json.MarshalIndent(sum, "", " ")
+		os.WriteFile(outPath, bb, 0o644)
+	}
+	return 1
 }
 
 func inputLines(t *Trace) []string {
@@ -495,13 +620,24 @@ func firstN(l []string, n int) []string {
 	return l
 }
 
+func quietLogs() {
+	// the server logs through glog: keep it off the disk and off our output
+	flag.Set("logtostderr", "true")
+	if os.Getenv("VERIF_DEBUG") == "" {
+		if f, err := os.OpenFile(os.DevNull, os.O_WRONLY, 0); err == nil {
+			syscall.Dup2(int(f.Fd()), 2)
+		}
+	}
+}
+
 func main() {
+	quietLogs()
 	if len(os.Args) < 2 {
 		fmt.Fprintln(os.Stderr, "usage: verifharness run|replay ...")
 		os.Exit(2)
 	}
 	switch os.Args[1] {
-	case "run":
+	case "run", "work":
 		fs := flag.NewFlagSet("run", flag.ExitOnError)
 		prop := fs.String("prop", "", "property id")
 		tier := fs.String("tier", "quick", "quick|thorough")
@@ -509,8 +645,34 @@ func main() {
 		out := fs.String("out", "", "summary json")
 		rdir := fs.String("replays", "/verif/replays", "replay dir")
 		known := fs.String("known", "/verif/KNOWN_FINDINGS.txt", "known findings file")
+		only := fs.Int("only", -1, "run one case only")
+		prog := fs.String("progress", "", "progress file")
 		fs.Parse(os.Args[2:])
-		os.Exit(runProp(*prop, *tier, *seed, *out, *rdir, *known, -1, nil))
+		if os.Args[1] == "work" {
+			if *prog != "" {
+				progressFile, _ = os.OpenFile(*prog, os.O_CREATE|os.O_WRONLY|os.O_APPEND, 0o644)
+			}
+			os.Exit(runProp(*prop, *tier, *seed, *out, *rdir, *known, *only, nil))
+		}
+		os.Exit(supervise(*prop, *tier, *seed, *out, *rdir, *known))
+	case "dump":
+		fs := flag.NewFlagSet("dump", flag.ExitOnError)
+		prop := fs.String("prop", "", "property id")
+		tier := fs.String("tier", "quick", "quick|thorough")
+		seed := fs.Uint64("seed", 1, "seed")
+		only := fs.Int("only", 0, "case")
+		fs.Parse(os.Args[2:])
+		ps := props[*prop]
+		if ps == nil {
+			os.Exit(2)
+		}
+		c := caseFor(modes[ps.Mode], *seed, *only, *tier)
+		if c != nil && c.Inputs != nil {
+			for _, l := range c.Inputs() {
+				fmt.Println(l)
+			}
+		}
+		os.Exit(0)
 	case "replay":
 		if len(os.Args) < 3 {
 			os.Exit(2)
